@@ -24,6 +24,37 @@ TRUSTED_BASE = [
 ]
 
 
+class ImplTimeout(Exception):
+    """the implementation did not answer within the CPU/wall budget of one call or one phase"""
+
+
+class guard:
+    """with guard(seconds): ...  raises ImplTimeout in the main thread when the block runs longer (wall clock).
+    Nested guards keep the outer deadline (the inner one is restored on exit)."""
+    def __init__(self, seconds):
+        self.seconds = seconds
+
+    def __enter__(self):
+        import signal
+        import time
+        def fire(signum, frame):
+            raise ImplTimeout(f'no answer within {self.seconds} s')
+        self._old = signal.signal(signal.SIGALRM, fire)
+        self._t0 = time.time()
+        self._prev = signal.setitimer(signal.ITIMER_REAL, self.seconds)
+        return self
+
+    def __exit__(self, *exc):
+        import signal
+        import time
+        signal.setitimer(signal.ITIMER_REAL, 0)
+        signal.signal(signal.SIGALRM, self._old)
+        if self._prev and self._prev[0] > 0:
+            left = max(0.01, self._prev[0] - (time.time() - self._t0))
+            signal.setitimer(signal.ITIMER_REAL, left)
+        return False
+
+
 class Infra(Exception):
     """Infrastructure failure (exit 2): not a statement about the property."""
 
